@@ -549,8 +549,8 @@ func (e *Engine) applyModifies(s *State, ct *Contract, ctx *SpecCtx, resultPhase
 			nv := e.declare(s, "gh", ghostHeaps[gname])
 			e.heapSet(s, "GH!"+gname, sortS, app("store", h, sv.V.L[0], nv))
 		default:
-			// x.f[.g]: field of the object x
-			i := strings.Index(m, ".")
+			// x.f / x.y.f: field f of the object denoted by the expression before the last dot
+			i := strings.LastIndex(m, ".")
 			if i < 0 {
 				e.unsupportedf("modifies clause %q", m)
 			}
@@ -643,6 +643,12 @@ func (e *Engine) callMods(c *ssa.CallCommon, m *mods) {
 			key = e.P.FuncKey(f)
 		} else {
 			key = calleeKeyExternal(f)
+		}
+	}
+	if key == "" {
+		// call of a value of a named function type with a functype contract
+		if nt, ok := c.Value.Type().(*types.Named); ok {
+			key = structKey(nt)
 		}
 	}
 	if fx, ok := extEffects[key]; ok {
@@ -905,4 +911,16 @@ func (e *Engine) isPrivateHelper(fn *ssa.Function) bool {
 		}
 	}
 	return true
+}
+
+// interfereMapAt: another goroutine may have replaced the contents of the map object m.
+func (e *Engine) interfereMapAt(s *State, mt *types.Map, m string) {
+	md, ml, ks := e.mapNames(mt)
+	e.interfere(s, md, "(Array Int (Array "+ks+" Bool))", m, e.declare(s, "mdom", "(Array "+ks+" Bool)"))
+	for _, lf := range e.leaves(mt.Elem()) {
+		e.interfere(s, e.mapValName(mt, lf.Path), "(Array Int (Array "+ks+" "+lf.Sort+"))", m, e.declare(s, "mvals", "(Array "+ks+" "+lf.Sort+")"))
+	}
+	nl := e.declare(s, "mlen", "Int")
+	s.assume(app(">=", nl, "0"))
+	e.interfere(s, ml, "(Array Int Int)", m, nl)
 }
